@@ -240,6 +240,12 @@ func ruleSaveErr(r *Run) {
 					if failIndex(x.Call.Signature()) < 0 {
 						return
 					}
+					// a query that writes nothing: its failure says nothing about what is in the file
+					// (an additional size verification after the write that is skipped when Stat fails)
+					switch cn {
+					case "(*os.File).Stat", "os.Stat", "os.Lstat":
+						return
+					}
 					// constructing or wrapping an error is not a fallible operation: fmt.Errorf(…),
 					// WrapError(op, err) with a non-nil err — there is nothing to check
 					if !callMayBeNil(p, fn, x, -1, 0) {
